@@ -64,6 +64,15 @@ def tasks(tier):
     for ct, fn, el_, n_ in c13.TABLES:
         ts.append(("boundary cells %s" % ct, "run_included", dict(modname="c13", fname="run_table", kwargs=dict(cell_type=ct, fname=fn, elname=el_, nnodes=n_), oid="C06.O10", select_oid="C13.O1",
                                                                 why="Field.grad() / hess() on a boundary-region template reproduce polynomials up to the element order only if every node of the rotated boundary cell sits where the element expects it")))
+    # the dual (p, J) fields of a first-order Lagrange region live on a RegionLagrange of order 0: one constant shape function per cell
+    for d_ in (1, 2, 3):
+        ts.append(("constant Lagrange element dim=%d" % d_, "run_included", dict(modname="c04", fname="run_class", kwargs=dict(modname="felupe.element._lagrange", clsname="ArbitraryOrderLagrange", lagrange=(0, d_, True)),
+                                                                              oid="C06.O11", select_oid=["C04.O5", "C04.O3", "C04.O4"],
+                                                                              why="a constant nodal value of a dual field on a first-order Lagrange region is interpolated as that constant only if the order-0 element has one shape function equal to one")))
+    # "equal across element families discretising the same straight-sided geometry": RegionLagrange(order=2) and the bi-/tri-quadratic templates
+    # read the same quad9 / hexahedron27 mesh only if both elements number their nodes alike
+    ts.append(("node order of the Lagrange families", "run_included", dict(modname="c04", fname="run_perm_tables", kwargs=dict(maxorder=2), oid="C06.O13", select_oid="C04.O7",
+                                                                          why="two element families measure one mesh alike only if position a of the cell's point list means the same node to both")))
     ts.append(("fields", "run_fields", {}))
     ts.append(("templates", "run_templates", dict(tier=tier)))
     return ts
@@ -557,6 +566,13 @@ def run_templates(col, tier):
         for i in range(dim):
             rst[i] = X[i]
         g = npmodel.to_obj(np.asarray(it.call_method(el, "gradient", [rst])))
+        # the isoparametric map x = sum_a h_a(r) X_a (and with it dXdr, dV, dhdX) is unchanged by a translation of the mesh iff the derivatives
+        # of the shape functions sum to zero -- "differential volumes ... unchanged by rigid motion"
+        if not boundary:
+            sums = [sum((P(g[a, K]) for a in range(g.shape[0])), ZERO) for K in range(dim)]
+            inv_ok = all(is_zero(v) for v in sums)
+            col.add("C06.O12", "%s:geometry-under-translation" % name, "sum_a d h_a / d r_K == 0 for the template's element: dXdr = sum_a X_a (x) dh_a/dr (hence dV and dhdX) does not change when the mesh is translated",
+                    inv_ok, "%s (%s): sum_a dh_a/dr = %s -- a translation T of the mesh adds T (x) this vector to dXdr" % (name, ename, [ring.fmt(v, 4) for v in sums]))
         per = [0] * dim
         tot = 0
         for v in g.reshape(-1):
